@@ -19,6 +19,7 @@ pub mod c14;
 pub mod c15;
 pub mod c16;
 pub mod c17;
+pub mod c18;
 pub mod c19;
 
 pub fn dispatch(ctx: &mut Ctx) -> bool {
@@ -40,6 +41,7 @@ pub fn dispatch(ctx: &mut Ctx) -> bool {
 		"C15" => c15::run(ctx),
 		"C16" => c16::run(ctx),
 		"C17" => c17::run(ctx),
+		"C18" => c18::run(ctx),
 		"C19" => c19::run(ctx),
 		_ => return false,
 	}
@@ -68,6 +70,7 @@ pub fn confirm(key: &str) -> Option<Option<String>> {
 		"C15" => c15::confirm(key),
 		"C16" => c16::confirm(key),
 		"C17" => c17::confirm(key),
+		"C18" => c18::confirm(key),
 		"C19" => c19::confirm(key),
 		_ => None,
 	}
